@@ -314,7 +314,7 @@ def run(tier):
     # the character-level front end (regular expressions regenerated from the lexer object, hand-modelled rule functions, token filter
     # with its feedback, LALR driver on the regenerated tables) against the real lexer / parser on TEXT
     import front
-    ntexts, fdis = front.run(chk, rng, tier, want=('raw', 'filtered'))
+    ntexts, fdis, _esc = front.run(chk, rng, tier, want=('raw', 'filtered'))
     chk.cov['front_end_texts'] = ntexts
     disagreements.extend(fdis)
     C.tie_verdict(chk, build, missing, disagreements, 'Lessm.Lex.filter (regenerated significant_ws) vs LessLexer.token',
